@@ -863,6 +863,16 @@ def r20_6(rep: Report, cls: ast.ClassDef) -> None:
     n = 0
     for fn in methods(rep, cls):
         construct = f'{BR}::BufferedReader.{fn.name}'
+        # the names the window size goes by in this method: the field, and a parameter or local that is stored
+        # into it or taken from it (`def __init__(.., size=None)` .. `self.size = size`)
+        holds = {'self.size'}
+        for a in ast.walk(fn):
+            if isinstance(a, (ast.Assign, ast.AnnAssign)) and getattr(a, 'value', None) is not None:
+                tg = a.targets[0] if isinstance(a, ast.Assign) else a.target
+                if norm(tg) == 'self.size' and isinstance(a.value, ast.Name):
+                    holds.add(a.value.id)
+                elif isinstance(tg, ast.Name) and norm(a.value) == 'self.size':
+                    holds.add(tg.id)
         for t in ast.walk(fn):
             tests = []
             if isinstance(t, (ast.If, ast.While, ast.IfExp, ast.Assert)):
@@ -875,9 +885,9 @@ def r20_6(rep: Report, cls: ast.ClassDef) -> None:
                     e, neg = e.operand, not neg
                 if isinstance(e, ast.BoolOp):
                     continue
-                if norm(e) == 'self.size':
-                    rep.fail(rid, construct, f'truthiness of self.size @{norm(t)[:40]}',
-                             '`self.size` is tested by truthiness: a window of size 0 is treated as a window of '
+                if norm(e) in holds:
+                    rep.fail(rid, construct, f'truthiness of {norm(e)} @{norm(t)[:40]}',
+                             f'`{norm(e)}` (the window size) is tested by truthiness: a window of size 0 is treated as a window of '
                              'unknown size (the next seek from the end adopts the length of the file)', t)
                 elif isinstance(e, ast.Compare) and norm(e.left) == 'self.size' \
                         and isinstance(e.ops[0], (ast.Is, ast.IsNot)):
